@@ -292,7 +292,8 @@ def _pred_cnt(case, impl):
         out.append(Failure(clause="cnt_is_last", key=f"cnt_is_last|{site}|",
                            detail=f"cnt={cnt} but the last second with T >= {cn} is {want}"))
     if idx and case["stop"] <= cn <= case["start"] and not tie:
-        if any(T1[j] < cn for j in range(cnt + 1)):
+        # (a ramp that ends one ulp below the hold temperature it runs into is rounding, not a dip: rtol 1e-9)
+        if any(T1[j] < cn - 1e-9 * max(1.0, abs(cn)) for j in range(cnt + 1)):
             out.append(Failure(clause="cnt_is_last", key=f"cnt_is_last|{site}|below-before",
                                detail="the shelf is below cnTemp at a second before cnt"))
     if case["stop"] <= cn <= case["start"]:
